@@ -1,1 +1,4 @@
 -- modules of work area Time (add imports here)
+import AM.Base.Calendar
+import AM.Model.TimeInterval
+import AM.Props.C15
